@@ -1,16 +1,25 @@
 /-
   C01 — Round trip preserves the molecule's constitution.
 
-  PARTIAL (stages 1 and 2 of the staging in DESIGN.md 4.1).
+  Stages 1, 2 and 3 of the staging in DESIGN.md 4.1.
 
-  Stage 2, `roundtrip_forest`: for EVERY well-formed adjacency list on which the traversal meets no ring
+  Stage 3, `roundtrip`: for EVERY well-formed adjacency list — rings included, any size, any atom numbering,
+  any per-atom bond order, any number of components, all atom kinds, all eight bond kinds — on which the
+  traversal succeeds (it fails only by running out of ring numbers: known finding D17) the complete round
+  trip walk → write → read → build yields a graph isomorphic to the original along the visit order
+  (`Spec.Iso`).  The proof (Purr/Lemmas/RtcRing.lean) is a simulation between the recursive traversal
+  `walkRec` and the graph builder with a purely state-based invariant: the builder's node for an atom lists
+  the half-bonds it has processed, resolved unless the ring-number pool holds the pair open; the pool holds
+  a pair open iff exactly one of its two half-bonds has been processed; the builder's table of open ring
+  numbers agrees with the pool.  `walkRec` is compared with the real `walk` on every run (field EVR).
+
+  Stage 2, `roundtrip_forest` (kept; subsumed by stage 3): for EVERY well-formed adjacency list on which the traversal meets no ring
   closure (every forest: any size, any atom numbering, any per-atom bond order, any number of components,
   all atom kinds, all eight bond kinds) the complete round trip walk → write → read → build yields a graph
   isomorphic to the original along the visit order (`Spec.Iso`).  The traversal is the recursive
   formulation `walkRec`, compared with the real `walk` on every run (field EVR); the proof is a simulation
   between that traversal and the graph builder (`kids_sim`, `comps_sim`, `rtc_forest`), T-wr for the text
-  leg and the builder's commutation with the C07 shorthands.  Graphs with rings (stage 3) remain on the
-  oracle and the correspondence.
+  leg and the builder's commutation with the C07 shorthands.
 
   Stage 1, proved for EVERY adjacency list (no well-formedness needed) and every accepted string:
     * the traversal's events are spelled by the writer without a panic, the reader accepts that text, and
@@ -20,16 +29,17 @@
     * hence building from the text equals building from the traversal's events directly
       (`roundtrip_text_elimination`): text is eliminated from the round trip;
     * a graph built from a conformant history is well-formed, so the traversal accepts it (C10, C11).
-  What remains is the round-trip core RTC: `build (walk g)` is `g` renumbered in traversal order with each
-  atom's arrival bond first.  It is in progress; until it is closed the isomorphism itself is checked on
-  every run by the oracle (walk → write → read → build on the real code, then an isomorphism test along the
-  traversal order) and by the S-graph / S-read correspondence.  Known finding D17 (more than 99
+  What is not a theorem: that the loop formulation `walk` and the recursive `walkRec` emit the same events
+  (compared on every run), that `walkRec` never runs out of fuel on a well-formed graph, and D17.  The
+  isomorphism is additionally checked on every run by the oracle (walk → write → read → build on the real
+  code, then an isomorphism test along the traversal order).  Known finding D17 (more than 99
   simultaneously open ring closures panic) and D19 (the empty adjacency list is written as the empty string,
   which the reader refuses) are listed in known_findings.json.
 -/
 import Purr.Props.C09
 import Purr.Props.C10
 import Purr.Lemmas.RtcCor
+import Purr.Lemmas.RtcRing
 import Purr.Lemmas.NormL
 namespace Purr.C01
 open Purr Purr.Spec
@@ -111,6 +121,64 @@ theorem roundtrip_forest (g : Graph) (hw : WellFormed g) (es : List (Event × Na
       Iso g g' (pos ord) := by
   obtain ⟨t, g1, hw', hok, hb, hrel, hnd, hcov⟩ := roundtrip_forest_relabelled g hw es ord h hj hne
   exact ⟨t, g1.map normAtom, hw', hok, hb, iso_normAtoms (hrel.iso hnd hcov)⟩
+
+/-- STAGE 3, detailed form: the same for EVERY well-formed adjacency list, rings included (the traversal
+    must succeed, i.e. never need a hundredth simultaneously open ring number — known finding D17). -/
+theorem roundtrip_relabelled (g : Graph) (hw : WellFormed g) (es : List (Event × Nat)) (ord : List Nat)
+    (h : walkRecL g = some (es, ord)) (hne : es ≠ []) :
+    ∃ t g1, write? (es.map (·.1)) = some t ∧ (read t).2 = .ok ∧ build? (read t).1 = some (.ok (g1.map normAtom)) ∧
+      Relabelled g ord g1 ∧ ord.Nodup ∧ (∀ x, x < g.length ↔ x ∈ ord) := by
+  obtain ⟨g1, hb, hrel, hnd, hcov⟩ := rtc g hw es ord h
+  have hconf : Conformant (es.map (·.1)) := conformant_of_walkRec g es ord h
+  have hne' : es.map (·.1) ≠ [] := by simpa using hne
+  obtain ⟨t, hw', hr⟩ := C09.read_write _ (conformantNE_of_nonempty hconf hne')
+  refine ⟨t, g1, hw', by rw [hr], ?_, hrel, hnd, hcov⟩
+  rw [hr]
+  simp only
+  rw [build_norm, hb]
+  rfl
+
+/-- STAGE 3.  THE ROUND TRIP PRESERVES THE CONSTITUTION: for every well-formed adjacency list (any rings,
+    any numbering, any bond order, any number of components) the written text is accepted by the reader and
+    builds a graph isomorphic to the original, atom `x` going to its position in the visit order. -/
+theorem roundtrip (g : Graph) (hw : WellFormed g) (es : List (Event × Nat)) (ord : List Nat)
+    (h : walkRecL g = some (es, ord)) (hne : es ≠ []) :
+    ∃ t g', write? (es.map (·.1)) = some t ∧ (read t).2 = .ok ∧ build? (read t).1 = some (.ok g') ∧
+      Iso g g' (pos ord) := by
+  obtain ⟨t, g1, hw', hok, hb, hrel, hnd, hcov⟩ := roundtrip_relabelled g hw es ord h hne
+  exact ⟨t, g1.map normAtom, hw', hok, hb, iso_normAtoms (hrel.iso hnd hcov)⟩
+
+/-- the traversal of a well-formed graph with at least one atom emits at least the root event -/
+theorem walkRecL_nonempty (g : Graph) (a : Atom) (rest : Graph) (hg : g = a :: rest) (es : List (Event × Nat)) (ord : List Nat)
+    (h : walkRecL g = some (es, ord)) : es ≠ [] := by
+  subst hg
+  unfold walkRecL at h
+  split at h
+  · cases h
+  · simp only [Option.map_eq_some_iff] at h
+    obtain ⟨⟨es0, ord0, pool0⟩, hc, heq⟩ := h
+    simp only [Prod.mk.injEq] at heq
+    obtain ⟨rfl, rfl⟩ := heq
+    simp only [List.length_cons, List.range_succ_eq_map, comps, List.contains_nil, Bool.false_eq_true, if_false,
+      List.getElem?_cons_zero] at hc
+    split at hc
+    · cases hc
+    · split at hc
+      · cases hc
+      · simp only [Option.some.injEq, Prod.mk.injEq] at hc
+        obtain ⟨rfl, _⟩ := hc
+        simp
+
+/-! non-vacuity of stage 3: a fused bicyclic graph with a stereocentre, numbered out of traversal order -/
+def exampleRings : Graph :=
+  [⟨.star, [⟨.elided, 2⟩, ⟨.up, 3⟩]⟩, ⟨.star, [⟨.double, 2⟩, ⟨.elided, 3⟩]⟩,
+   ⟨.bracket ⟨none, .element .C, some .TH1, none, none, none⟩, [⟨.double, 1⟩, ⟨.elided, 0⟩, ⟨.single, 3⟩]⟩,
+   ⟨.star, [⟨.single, 2⟩, ⟨.elided, 1⟩, ⟨.down, 0⟩]⟩]
+
+example : WellFormed exampleRings ∧ ∃ es ord, walkRecL exampleRings = some (es, ord) ∧
+    (∃ e ∈ es, isJoin e = true) ∧ es ≠ [] := by
+  refine ⟨(validate_none_iff _).mp (by decide), (walkRecL exampleRings).get!.1, (walkRecL exampleRings).get!.2,
+    by decide, by decide, by decide⟩
 
 /-! non-vacuity of stage 2: a two-component forest with a stereocentre entered through bond index 1,
     numbered out of traversal order, meets every hypothesis of `roundtrip_forest` -/
